@@ -49,7 +49,7 @@ def corpus() -> list[tuple[str, str]]:
         "Lambda": ["lambda: a", "lambda x: x", "lambda x, y=1: x", "lambda x, /: x", "lambda x, /, y: x", "lambda *a: a", "lambda *a, b: a", "lambda *, b: b", "lambda *, b=1: b", "lambda *, a=1, b: a", "lambda *, a, b=1: a", "lambda a, b=1, /, c=2, *, d, e=3: a",
                    "lambda **k: k", "lambda x, /, y, *a, z=1, **k: x", "lambda x, /, *, z: x", "lambda x=1, /, y=2: x"],
         "Call": ["f()", "f(a)", "f(a, b)", "f(a=1)", "f(*a)", "f(**k)", "f(a, *b, c=1, **d)", "f(x for x in a)", "f(a)(b)"],
-        "Subscript": ["a[0]", "a[b]", "a[b, c]", "a[1:2]", "a[1:2:3]", "a[:]", "a[::2]", "a[1:]", "a[:2]", "a[1:2, ::3]", "a[(b, c)]", "a[b][c]", "a[*b]", "a[()]"],
+        "Subscript": ["a[0]", "a[b]", "a[b, c]", "a[1:2]", "a[1:2:3]", "a[:]", "a[::2]", "a[1:]", "a[:2]", "a[1:2, ::3]", "a[(b, c)]", "a[b][c]", "a[*b]", "a[()]", "a[b,]", "a[(b,), c]", "a[1:2,]"],
         "Tuple": ["()", "(a,)", "(a, b)", "a, b"], "List": ["[]", "[a]", "[a, b]", "[*a, b]"], "Set": ["{a}", "{a, b}", "{*a, b}"],
         "Dict": ["{}", "{a: b}", "{a: b, c: d}", "{**a}", "{**a, b: c}", "{a: b, **c}"],
         "ListComp": ["[x for x in a]", "[x for x in a if x]", "[x for x in a if x if y]", "[x for y in a for x in y]", "[(x, y) for x, y in a]"],
@@ -96,6 +96,21 @@ def corpus() -> list[tuple[str, str]]:
     return out
 
 
+def _render_nested(it: Interp, prog: Program, e) -> str:
+    """Render by recursing through iterate(flat=False), the way a template walks an expression."""
+    if isinstance(e, str):
+        return e
+    out = []
+    for piece in it.call(prog.lookup_method(e.cls, "iterate")[0], e, flat=False):
+        if isinstance(piece, str):
+            out.append(piece)
+        elif piece is e or (isinstance(piece, Obj) and piece.cls.name == "ExprName"):
+            out.append(it.getattr(piece, "name"))
+        else:
+            out.append(_render_nested(it, prog, piece))
+    return "".join(out)
+
+
 def same_tree(src: str, rendered: str) -> bool:
     """Same expression tree.  The rendered text is read where Griffe's expressions come from: first as an expression on its own, else as the
     right-hand side of an assignment (`x = yield a` needs no parentheses there)."""
@@ -140,7 +155,8 @@ def run(prog: Program, ctx: Ctx) -> None:  # noqa: PLR0912,PLR0915
     # ------------------------------------------------------------------ R2 / R3 round-trip table
     ctx.rule("R2", "rendering the expression built from each corpus shape gives text that parses to the same tree as the source (up to redundant "
                    "parentheses and literal spelling)")
-    ctx.rule("R3", "flat iteration yields exactly the pieces of the rendered string, and every name the source references appears as a name element")
+    ctx.rule("R3", "flat iteration yields exactly the pieces of the rendered string, element-by-element (non-flat) iteration renders the same text, "
+                   "and every name the source references appears as a name element")
     it = Interp(prog, max_depth=80, max_steps=3_000_000)
     it.ext_handlers["builtins.compile"] = lambda _i, src, **k: compile(src, k.get("filename", "<s>"), k.get("mode", "eval"), flags=ast.PyCF_ONLY_AST, dont_inherit=True)
     build = prog.function(f"{E}._build")
@@ -173,13 +189,14 @@ def run(prog: Program, ctx: Ctx) -> None:  # noqa: PLR0912,PLR0915
             names = [it.getattr(x, "name") for x in flat if isinstance(x, Obj) and x.cls is ncls]
             other = [x for x in flat if not isinstance(x, str) and not (isinstance(x, Obj) and x.cls is ncls)]
             want_names = [n.id for n in ast.walk(node) if isinstance(n, ast.Name)]
-            ok3 = pieces == rendered and not other and sorted(names) == sorted(want_names + [n.attr for n in ast.walk(node) if isinstance(n, ast.Attribute)])
+            nested = _render_nested(it, prog, e)
+            ok3 = pieces == rendered and nested == rendered and not other and sorted(names) == sorted(want_names + [n.attr for n in ast.walk(node) if isinstance(n, ast.Attribute)])
             if not ok3:
                 k3 = f"flat|{a}"
                 if k3 in seen_classes:
                     continue
                 seen_classes.add(k3)
-            ctx.ob("R3", f"flat|{label}" if ok3 else f"flat|{a}", ok3, f"`{src}`: flat pieces join to `{pieces}`; name elements {names}" +
+            ctx.ob("R3", f"flat|{label}" if ok3 else f"flat|{a}", ok3, f"`{src}`: flat pieces join to `{pieces}`; element-by-element (non-flat) rendering gives `{nested}`; name elements {names}" +
                    ("" if ok3 else f"; expected the names {sorted(want_names)} (+ attribute segments) and the string `{rendered}`"), where(build))
     ctx.expect_min("R2", n_rows, 900)
     ctx.analysed["corpus_size"] = n_rows
